@@ -43,7 +43,7 @@ type Plan struct {
 var faults = []string{"", "", "blindsig-flip", "blindsig-zero", "blindsig-one", "blindsig-Nminus1", "blindsig-N", "blindsig-short", "blindsig-long",
 	"blinded-N", "blinded-Nplus1", "blinded-short", "blinded-long", "blinded-zero",
 	"sig-flip", "sig-zero", "sig-one", "sig-Nminus1", "sig-N", "sig-Nplus1", "sig-plusN", "sig-short", "sig-long", "msg-alter", "meta-alter",
-	"blindsig-plusN", "two-blinds", "entropy-error", "retry-after-bad-blindsig"}
+	"blindsig-plusN", "sig-forged-padding", "two-blinds", "entropy-error", "retry-after-bad-blindsig"}
 
 func gen(r *core.PRNG, tier string) any {
 	p := &Plan{Seed: r.Uint64(), MsgLen: r.EdgeLen(100, 0, 1, 48), MetaLen: r.EdgeLen(40, 0, 1), Pos: r.Intn(1 << 16)}
@@ -532,6 +532,46 @@ func exec(planJSON []byte, run *core.Run) {
 		run.Fault("entropy:different-blind-same-salt")
 		if !bytes.Equal(sig, sig2) {
 			run.Violate(comp, "signature-depends-on-blinding-factor", "same prepared message and salt, two blinds: %x… vs %x…", sig[:8], sig2[:8])
+		}
+		return
+	case "sig-forged-padding":
+		// the key holder signs an EMSA-PSS encoding of its own making: a junk octet in the
+		// zero padding, and / or another salt length. The library and crypto/rsa must agree.
+		if pb {
+			return // crypto/rsa cannot take the derived (large) exponent
+		}
+		d := sha512.Sum384(s1.prepared)
+		sl := saltLen
+		var junk byte
+		switch p.Pos % 3 {
+		case 0:
+			junk = byte(1 + p.Pos%250)
+		case 1:
+			junk, sl = byte(2+p.Pos%250), 5
+		case 2:
+			sl = 7
+		}
+		if junk == 0x01 {
+			junk = 0x02
+		}
+		em := pssref.Encode(crypto.SHA384, d[:], core.NewPRNG(p.Seed+6).Bytes(sl), N.BitLen()-1, junk)
+		if em == nil {
+			return
+		}
+		forged := new(big.Int).Exp(new(big.Int).SetBytes(em), key.D, N).FillBytes(make([]byte, k))
+		run.Fault("adversary:key-holder-signs-nonstandard-encoding")
+		got, fine := libVerify(s1.prepared, meta, forged)
+		if !fine {
+			return
+		}
+		opts := &rsa.PSSOptions{SaltLength: saltLen, Hash: crypto.SHA384}
+		if saltLen == 0 {
+			opts.SaltLength = rsa.PSSSaltLengthAuto
+		}
+		want := rsa.VerifyPSS(&key.PublicKey, crypto.SHA384, d[:], forged, opts) == nil
+		run.Event("verifier", "verify-forged-encoding", p.Pos%3, got, want)
+		if got != want {
+			run.Violate(comp+".Verify", "disagrees-with-crypto/rsa", "encoding with junk octet %#x in the padding and a %d-byte salt signed by the key holder: library says %v, crypto/rsa.VerifyPSS says %v (key %s)", junk, sl, got, want, p.Key)
 		}
 		return
 	case "sig-flip", "sig-zero", "sig-one", "sig-Nminus1", "sig-N", "sig-Nplus1", "sig-plusN", "sig-short", "sig-long", "msg-alter", "meta-alter":
